@@ -494,6 +494,21 @@ func genSQL(rng *rand.Rand) Case {
 		sel = append(sel, f.sql())
 	}
 	gb := "CountingWindow(" + strconv.Itoa(n) + ")"
+	gwin := false
+	plain := !having
+	for _, f := range fields {
+		if f.input[0] != "col" && f.input[0] != "star" {
+			plain = false
+		}
+	}
+	if plain && rng.Intn(2) == 0 {
+		// the same batches from the global window's own running aggregators (a second implementation of every aggregate):
+		// a group fires at its n-th row and starts again from nothing
+		gb = "GLOBAL WINDOW TRIGGER WHEN COUNT(*) >= " + strconv.Itoa(n)
+		c.Stat = append(c.Stat, "sql-global-window")
+		c.Cfg = append(c.Cfg, []string{"gwin", "1"})
+		gwin = true
+	}
 	if grouped {
 		gb = "g, " + gb
 	}
@@ -522,6 +537,21 @@ func genSQL(rng *rand.Rand) Case {
 		"c":   arith,
 		"d":   arith,
 		"m.y": arith,
+	}
+	if gwin {
+		// the property's own value domain: numbers (whole ones within ±2^53: they are held as float64 there), NULL, missing
+		num := func() string {
+			for {
+				t := genNum(rng)
+				if rng.Intn(5) == 0 {
+					t = "n"
+				}
+				if !strings.HasPrefix(t, "i:") || len(t) < 17 {
+					return t
+				}
+			}
+		}
+		gen["a"], gen["b"], gen["v"] = num, num, num
 	}
 	cols := []string{"a", "b", "n.x", "v", "c", "d", "m.y"}
 	if grouped {
